@@ -372,6 +372,9 @@ inductive Ev where
   while the op keeps the second (`CreateSocket`, `Accept`; `OpenFile::call` returns `Ok(0)`, so there the
   second owner is descriptor 0). -/
   | completeFallback
+  /-- `Incoming::poll_next` after it handed out the descriptor of a finished op (`try_take().into_inner()`,
+  `this.op = None`): the next `poll_next` builds a fresh `AcceptMulti` (the stream outlives its ops) -/
+  | rearm
   deriving DecidableEq, Repr
 
 /-- the op struct is dropped: everything it still owns is closed -/
@@ -410,6 +413,10 @@ def step (s : St) : Ev → Option St
       let s2 := { s1 with closed := s1.closed ++ [s.next], inDriver := false, result := some true }
       some (if s.fut = .dropped then dropOp s2 else s2)
     else none
+  | .rearm =>
+    match s.fut with
+    | .ready => some { s with fut := .idle, result := none, cancelled := false }
+    | _ => none
   | .shot =>
     if s.inDriver = true ∧ s.result = none then some (adopt s) else none
   | .popShot =>
